@@ -8,6 +8,7 @@ import Driver.WsJson
 import Driver.HttpCodec
 import Driver.WsStore
 import Driver.Stats
+import Driver.RawBytes
 import Driver.UdpNet
 
 def main (args : List String) : IO UInt32 := do
@@ -22,6 +23,7 @@ def main (args : List String) : IO UInt32 := do
   | ["httpcodec"] => HttpCodecDrv.main; return 0
   | ["wsstore"] => WsStoreDrv.main; return 0
   | ["stats"] => StatsDrv.main; return 0
+  | ["rawbytes"] => RawBytesDrv.main; return 0
   | ["udpnet"] => UdpNetDrv.main; return 0
   | _ =>
     IO.eprintln "usage: driver <family>   (lines on stdin)"
